@@ -9,10 +9,10 @@
 package sqlmini
 
 import (
-	"encoding/json"
 	"context"
 	"database/sql"
 	"database/sql/driver"
+	"encoding/json"
 	"errors"
 	"fmt"
 	"io"
